@@ -11,16 +11,48 @@ from . import common
 from . import translate_formulas as T1
 
 
+REF = os.path.join(common.HERE, "ref")       # the committed reference model: T1's output on the tree the theorems were proved for
+GEN = {"Formulas.lean": os.path.join(common.LEAN_DIR, "AoVerif/Gen/Formulas.lean"),
+       "FormulasDispatch.lean": os.path.join(common.LEAN_DIR, "AoVerif/Gen/FormulasDispatch.lean"),
+       "formulas.json": os.path.join(common.HERE, "_gen/formulas.json")}
+
+
+def use_reference(chk, meta, reason):
+    """SECOND ROUTE of the tie.  The translator route is not available for the current source (T1 cannot translate it, or the proofs
+    do not go through on what it generates — both happen for harmless rewrites).  The model is then the committed reference model
+    (harness/ref), for which every theorem is kernel-checked, and the tie between it and the current code is the correspondence
+    check: `selfcheck` runs its Float instantiation against the current Python functions on ten times as many generated arguments.
+    A disagreement there, or a reference entry that can no longer be observed in the code, breaks the tie."""
+    for name, dst in GEN.items():
+        T1.write_if_changed(dst, open(os.path.join(REF, name)).read())
+    ref = json.load(open(os.path.join(REF, "formulas.json")))
+    meta.clear()
+    meta.update(ref)
+    chk.t1 = {"mode": "reference", "reason": reason}
+    chk.on_build_failure = None
+    chk.notes.append("T1: translator route unavailable for the current source (%s); the committed reference model is used and tied "
+                     "to the code by correspondence (second route, DESIGN §2.2)" % reason)
+    return True
+
+
 def regenerate(chk):
-    """regenerate Gen/ from /repo's working tree; returns meta or None (and records the broken tie)"""
+    """regenerate Gen/ from /repo's working tree (first route); fall back to the reference model (second route).  Returns meta."""
+    meta = {}
     try:
-        formulas, dispatch, meta = T1.translate(common.REPO)
-    except (T1.TranslateError, SyntaxError, OSError) as ex:
-        chk.broke("translator", "T1 cannot translate the current source: %s" % ex)
-        return None
-    T1.write_if_changed(os.path.join(common.LEAN_DIR, "AoVerif/Gen/Formulas.lean"), formulas)
-    T1.write_if_changed(os.path.join(common.LEAN_DIR, "AoVerif/Gen/FormulasDispatch.lean"), dispatch)
-    T1.write_if_changed(os.path.join(common.HERE, "_gen/formulas.json"), json.dumps(meta, indent=1, sort_keys=True))
+        formulas, dispatch, m = T1.translate(common.REPO)
+    except (T1.TranslateError, SyntaxError, OSError, KeyError, IndexError, AttributeError, RecursionError) as ex:
+        use_reference(chk, meta, "T1 cannot translate the current source: %s" % ex)
+        return meta
+    meta.update(m)
+    T1.write_if_changed(GEN["Formulas.lean"], formulas)
+    T1.write_if_changed(GEN["FormulasDispatch.lean"], dispatch)
+    T1.write_if_changed(GEN["formulas.json"], json.dumps(m, indent=1, sort_keys=True))
+    same = formulas == open(os.path.join(REF, "Formulas.lean")).read()
+    chk.t1 = {"mode": "regenerated", "identical_to_reference": same}
+    if not same:
+        chk.on_build_failure = lambda reason: use_reference(chk, meta, reason)
+        chk.notes.append("T1: the regenerated model differs from the committed reference model (the source of a translated function "
+                         "changed); the theorems are re-checked against the regenerated text")
     return meta
 
 
@@ -37,15 +69,119 @@ def _extract_callable(meta_entry, params):
     raise RuntimeError("extract target vanished")
 
 
+# ------------------------------------------------------------------------------------------------------------------------
+# Observers: the quantity an `extract` entry models, obtained through the PUBLIC function instead of by picking an assignment out of
+# its body (used when the assignment can no longer be found or evaluated — a renamed local, a formula moved into a helper).
+class _OnesAt(numpy.random.Generator):
+    """a Generator whose normal draws are 1.0 at the stream positions lo <= k < hi and 0.0 elsewhere"""
+    def __init__(self, lo, hi):
+        super().__init__(numpy.random.PCG64(0))
+        self._lo, self._hi, self._pos = lo, hi, 0
+
+    def _serve(self, size):
+        shape = () if size is None else (tuple(size) if hasattr(size, "__len__") else (int(size),))
+        n = int(numpy.prod(shape)) if shape else 1
+        k = numpy.arange(self._pos, self._pos + n)
+        self._pos += n
+        out = ((k >= self._lo) & (k < self._hi)).astype(float).reshape(shape)
+        return float(out) if size is None else out
+
+    def normal(self, loc=0.0, scale=1.0, size=None):
+        return loc + scale * self._serve(size)
+
+    def standard_normal(self, size=None, dtype=numpy.float64, out=None):
+        return self._serve(size)
+
+
+def _observe_psd_hi(f, fm, f0, r0):
+    """PSD of ft_phase_screen at frequency f: unit real draws, zero imaginary draws and an identity `FFT` object make the returned
+    screen equal sqrt(PSD)·del_f·N² on the frequency grid (4x4 grid, pixel size chosen so that one grid frequency is f)"""
+    from aotools.turbulence import phasescreen
+    if not f > 0:
+        f = 1e-12 * f0        # the code zeroes the zero-frequency sample; the formula's value there is its limit (equal to rounding)
+    N = 4
+    delta = 1. / (N * f)
+    del_f = 1. / (N * delta)
+    L0, l0 = 1. / f0, 5.92 / (2 * numpy.pi * fm)
+    scr = phasescreen.ft_phase_screen(r0, N, delta, L0, l0, FFT=lambda a: a, seed=_OnesAt(0, N * N))
+    return (float(numpy.asarray(scr)[N // 2, N // 2 + 1]) / (del_f * N ** 2)) ** 2
+
+
+def _observe_psd_sh(f, fm, f0, r0):
+    """PSD of the sub-harmonic part of ft_sh_phase_screen at frequency f: every draw zero except the real part of the coefficient
+    of the plane wave (fx, fy) = (+del_f, 0) on the first sub-harmonic grid (stream position 2N² + 5), on a 4x4 grid whose pixel
+    size makes del_f = 1/(3·N·delta) equal to f.  The returned screen is then c·(cos(2π f x) − mean) with c = sqrt(PSD)·del_f;
+    c is recovered from the difference of two pixels."""
+    from aotools.turbulence import phasescreen
+    if not f > 0:
+        f = 1e-12 * f0        # the code zeroes the zero-frequency sample; the formula's value there is its limit (equal to rounding)
+    N = 4
+    delta = 1. / (3 * N * f)
+    D = N * delta
+    del_f = 1 / (3 * D)
+    L0, l0 = 1. / f0, 5.92 / (2 * numpy.pi * fm)
+    k = 2 * N * N + 5
+    scr = numpy.asarray(phasescreen.ft_sh_phase_screen(r0, N, delta, L0, l0, seed=_OnesAt(k, k + 1)))
+    x = numpy.arange(-N / 2, N / 2) * delta
+    c = float(scr[0, N // 2] - scr[0, 0]) / float(numpy.cos(2 * numpy.pi * del_f * x[N // 2]) - numpy.cos(2 * numpy.pi * del_f * x[0]))
+    return (c / del_f) ** 2
+
+
+def _observe_r0_kernel(slopeVar, wavelength, subapDiam):
+    """r0_from_slopes on one sub-aperture whose two slope samples ±sqrt(v) have variance v"""
+    from aotools.turbulence import atmos_conversions
+    s = float(numpy.sqrt(slopeVar))
+    return float(atmos_conversions.r0_from_slopes(numpy.array([[-s, s]]), wavelength, subapDiam))
+
+
+OBSERVERS = {"psd_ft_phase_screen": _observe_psd_hi, "psd_ft_sh_phase_screen": _observe_psd_sh,
+             "r0_from_slopes_kernel": _observe_r0_kernel}
+
+
+def callable_for(chk, name, m, params):
+    """the Python side of the correspondence for model entry `name`: the function itself, the extracted assignment, or — when that
+    assignment cannot be found or evaluated any more — the observer through the public function"""
+    mod = importlib.import_module(m["module"][:-3].replace("/", "."))
+    if not m["extract"]:
+        return getattr(mod, m["python"])
+    try:
+        fn = _extract_callable(m, params)
+        probe = {"psd_ft_phase_screen": (1.3, 40., 0.05, 0.2), "psd_ft_sh_phase_screen": (1.3, 40., 0.05, 0.2)}.get(name)
+        if probe is not None:
+            fn(*probe)                          # the extracted expression must be evaluable from the declared parameters alone
+        return fn
+    except Exception as ex:
+        if name in OBSERVERS:
+            chk.notes.append("T1: %s is observed through the public function (the assignment to `%s` could not be used: %s)"
+                             % (name, m["extract"], str(ex)[:120]))
+            chk.count("t1:observer:" + name)
+            obs = OBSERVERS[name]
+
+            def observed(*a):
+                if any(isinstance(x, numpy.ndarray) and x.ndim > 0 for x in a):
+                    return numpy.vectorize(obs, otypes=[float])(*a)
+                return obs(*a)
+            observed.is_observer = True
+            return observed
+        raise
+
+
 def selfcheck(chk, meta, names, arggen, n_cases, rtol=1e-11, atol=0.0, rtol_by_name=None):
     """arggen(lean_name, rng) -> dict param -> value (scalar float | list of floats | 2-list | row-key)"""
     lines, expect, descr = [], [], []
     tables = {k[6:]: v for k, v in meta.items() if k.startswith("table:")}
+    reference = getattr(chk, "t1", {}).get("mode") == "reference"
+    if reference:
+        n_cases *= 10                 # the correspondence is now the only tie between model and code
     for name in names:
         m = meta[name]
-        mod = importlib.import_module(m["module"][:-3].replace("/", "."))
         params = [p for p, _ in m["layout"]]
-        fn = _extract_callable(m, params) if m["extract"] else getattr(mod, m["python"])
+        try:
+            fn = callable_for(chk, name, m, params)
+        except Exception as ex:
+            chk.broke("correspondence", "the %s model entry %s cannot be observed in the current source (%s: %s)"
+                      % ("reference" if reference else "generated", name, type(ex).__name__, str(ex)[:200]))
+            continue
         for _ in range(n_cases):
             args = arggen(name, chk.rng)
             wire, call = [], []
@@ -66,9 +202,13 @@ def selfcheck(chk, meta, names, arggen, n_cases, rtol=1e-11, atol=0.0, rtol_by_n
             try:
                 with numpy.errstate(all="ignore"):
                     e = float(fn(*call))
-            except Exception as ex:   # the real function rejects this input: not a translator matter
-                chk.count("t1:python-raised:" + type(ex).__name__)
-                continue
+            except Exception as ex:   # the real function rejects an argument from the property's domain (it never does on the
+                chk.count("t1:python-raised:" + type(ex).__name__)           # unchanged tree): a concrete failing input
+                if getattr(fn, "is_observer", False) and not (args.get("f", 1.0) > 0):
+                    continue                                                 # an observer has no grid for frequency 0
+                chk.fail("t1:raises:%s" % name, "%s(%s) raises %s: %s" % (m["python"], args, type(ex).__name__, str(ex)[:200]),
+                         {"kind": "t1-selfcheck", "name": name, "args": args})
+                break
             lines.append("T1 %s %s" % (name, " ".join(common.f2h(x) for x in wire)))
             expect.append(e)
             descr.append((name, args))
@@ -82,6 +222,6 @@ def selfcheck(chk, meta, names, arggen, n_cases, rtol=1e-11, atol=0.0, rtol_by_n
         if a == "bad-op" or not common.close(common.h2f(a), e, rt, atol):
             bad += 1
             if bad <= 3:
-                chk.broke("correspondence", "T1 self-check: generated Lean %s disagrees with the Python source on %s: lean=%s python=%r"
-                          % (name, args, a if a == "bad-op" else common.h2f(a), e))
+                chk.broke("correspondence", "T1 self-check: %s Lean model %s disagrees with the Python source on %s: lean=%s python=%r"
+                          % ("reference" if reference else "generated", name, args, a if a == "bad-op" else common.h2f(a), e))
     return bad
